@@ -57,25 +57,40 @@ def g0_(j, k):
   return z3.If(k == j, alpha_(j), z3.If(k > j, alpha_(k) + alpha_(k - 1), z3.RealVal(0)))
 
 
-def ensure_cases(en, name, base_int, cases, real_hyps, goal, timeout_ms=60000):
+def ensure_cases(en, name, base_int, cases, real_hyps, goal, timeout_ms=60000, rules=None):
   """One obligation split into index cases (each: If-resolution under the case's integer facts, uninterpreted applications abstracted,
   nlsat -- vlib/pyvc/nra.py).  The cases must be exhaustive: that is an obligation of its own (linear integer arithmetic)."""
   import time
   from vlib import smt
   t0 = time.time()
-  cover = smt.valid(list(base_int), z3.Or(*[z3.And(*c) for _, c in cases]), timeout_ms=20000)
+  # a case may carry a substitution (var, term) justified by its own facts (checked), e.g. N := r + 1 in the case r == N - 1
+  cases = [(c[0], c[1], (c[2] if len(c) > 2 else [])) for c in cases]
+  cover = smt.valid(list(base_int), z3.Or(*[z3.And(*c) for _, c, _ in cases]), timeout_ms=20000)
   status, detail, model, smt2, back = 'valid', '', None, '', 'z3-nlsat'
   if cover.status != 'valid':
     status, detail = 'unknown', f'case split not shown exhaustive ({cover.status})'
   else:
-    for label, c in cases:
-      v = nra.prove(list(base_int) + list(c), real_hyps, goal, timeout_ms=timeout_ms)
+    for label, c, sub in cases:
+      goal_c = goal
+      if sub:
+        ok_sub = all(smt.valid(list(base_int) + list(c), a == b, timeout_ms=5000).status == 'valid' for a, b in sub)
+        if ok_sub:
+          goal_c = z3.substitute(goal, *sub)
+      if rules is not None and z3.is_eq(goal):
+        # field identity by normal form first (vlib/pyvc/ring.py); the SMT route only if that does not settle the case
+        from vlib.pyvc import ring
+        v = ring.prove_identity(list(base_int) + list(c), real_hyps, rules, goal_c.arg(0), goal_c.arg(1))
+        if v.status == 'valid':
+          back = 'sympy-ring+z3'
+          continue
+        ring_reason = v.reason
+      v = nra.prove(list(base_int) + list(c), real_hyps, goal_c, timeout_ms=timeout_ms)
       if v.status == 'invalid':
         status, model, smt2 = 'invalid', (en.model_of_inputs(v.model) if v.model is not None else None), v.smt2[:20000]
         detail = f'case {label}: counter-model: {model}' if model is not None else f'case {label}: {v.reason}'
         break
       if v.status != 'valid':
-        status, detail = 'unknown', f'case {label}: {v.reason}'[:400]
+        status, detail = 'unknown', (f'case {label}: {v.reason}'[:400] + (f' | ring: {ring_reason}'[:900] if rules is not None else ''))
         break
   r = E.ObligationResult(f'{name} [{len(cases)} index cases]', status, seconds=time.time() - t0, back_end=back, detail=detail)
   r.model, r.smt2 = model, smt2
@@ -438,9 +453,9 @@ def replay_matrices(w):
   return False, 'weight matrices equal the documented ones and dense == sparse on the sampled columns'
 
 
-def clauses():
+def clauses(only=None):
   rc = lambda c, n=2: (lambda ctx: run_contract(c, min_obligations=n, setup=_setup, timeout_ms=120000, max_paths=400))
-  return [
+  out = [
       Clause('smt:get_sigma_ratios == documented log ratios (all layer counts)', 'smt', [PE + 'get_sigma_ratios'], rc(sigma_ratios_contract, 2), replay=replay_matrices, group='pyvc-mat'),
       Clause('smt:get_geopotential_weights == documented matrix G (nested loops with invariants; all layer counts)', 'smt', [PE + 'get_geopotential_weights'],
              rc(geopotential_weights_contract, 5), replay=replay_matrices, group='pyvc-mat'),
@@ -457,3 +472,4 @@ def clauses():
              [PE + 'get_temperature_implicit', PE + 'get_geopotential_diff'], rc(partial_sum_lemma, 4), group='pyvc-mat'),
       Clause('canary:geopotential weight matrix is diagonal must fail', 'smt', [PE + 'get_geopotential_weights'], rc(canary_contract, 1), canary=True, group='pyvc-mat'),
   ]
+  return out if only is None else [c for c in out if any(k in c.name for k in only)]
